@@ -35,6 +35,7 @@ package ocirequest
 
 //@ invariant (*Request) self != nil
 //@ func parse
+//@   modifies ocirequest.Request, Request.ListN, Request.ListLast
 //@   requires u != nil
 //@   ensures[valid-names-only] result.1 == nil ==> validRequest(result.0)
 //@   ensures[error-means-nil] result.1 != nil ==> result.0 == nil
@@ -52,6 +53,7 @@ package ocirequest
 //@     u.Path == "/v2/" + result.0.Repo + "/blobs/uploads/" || u.Path == "/v2/" + result.0.Repo + "/blobs/uploads"
 
 //@ func Parse
+//@   modifies ocirequest.Request, Request.ListN, Request.ListLast
 //@   requires u != nil
 //@   ensures[valid-names-only] result.1 == nil ==> validRequest(result.0)
 //@   ensures[error-means-nil] result.1 != nil ==> result.0 == nil
